@@ -110,15 +110,45 @@ def scratch_dir(prefix: str) -> str:
     return tempfile.mkdtemp(prefix=prefix, dir=SCRATCH_ROOT)
 
 
+PFAM_PROFILES = {  # name -> (accession, trusted cutoff); real Pfam identifiers so that pfam2go finds GO terms
+    "ketoacyl-synt": ("PF00109.30", 25.0), "AMP-binding": ("PF00501.32", 20.0), "PP-binding": ("PF00550.29", 20.0),
+    "Condensation": ("PF00668.24", 20.0), "Acyl_transf_1": ("PF00698.25", 20.0), "KR": ("PF08659.14", 20.0),
+    "Thioesterase": ("PF00975.24", 20.0), "p450": ("PF00067.26", 20.0), "ABC_tran": ("PF00005.31", 20.0),
+}
+
+
 def database_dir() -> str:
-    """ A scratch database directory that satisfies what the minimal pipeline looks for """
-    path = os.path.join(SCRATCH_ROOT, f"databases_{os.getpid()}")
+    """ A scratch database directory that satisfies what the pipeline looks for: an (empty) transATor
+        profile file and a small Pfam database with pressed-file placeholders.  The path is the same for
+        every process (it ends up in the results JSON); it is built aside and renamed into place. """
+    final = os.path.join(SCRATCH_ROOT, "databases")
+    if os.path.exists(os.path.join(final, "complete")):
+        return final
+    os.makedirs(SCRATCH_ROOT, exist_ok=True)
+    path = tempfile.mkdtemp(prefix="databases_build_", dir=SCRATCH_ROOT)
     target = os.path.join(path, "nrps_pks", "transATor", "1.0")
-    if not os.path.exists(os.path.join(target, "transATor.hmm")):
-        os.makedirs(target, exist_ok=True)
-        with open(os.path.join(target, "transATor.hmm"), "w", encoding="utf-8"):
-            pass
-    return path
+    os.makedirs(target)
+    with open(os.path.join(target, "transATor.hmm"), "w", encoding="utf-8"):
+        pass
+    pfam = os.path.join(path, "pfam", "35.0")
+    os.makedirs(pfam)
+    with open(os.path.join(pfam, "Pfam-A.hmm"), "w", encoding="utf-8") as handle:
+        for name, (accession, cutoff) in PFAM_PROFILES.items():
+            handle.write(f"HMMER3/f [3.1b2 | February 2015]\nNAME  {name}\nACC   {accession}\nDESC  simulated {name}\n"
+                         f"LENG  60\nTC    {cutoff} {cutoff};\n//\n")
+    stamp = os.path.getmtime(os.path.join(pfam, "Pfam-A.hmm")) + 5
+    for ext in ("h3f", "h3i", "h3m", "h3p"):
+        pressed = os.path.join(pfam, f"Pfam-A.hmm.{ext}")
+        with open(pressed, "w", encoding="utf-8") as handle:
+            handle.write("placeholder for hmmpress output\n")
+        os.utime(pressed, (stamp, stamp))
+    with open(os.path.join(path, "complete"), "w", encoding="utf-8"):
+        pass
+    try:
+        os.rename(path, final)
+    except OSError:
+        shutil.rmtree(path, ignore_errors=True)   # another process won the race
+    return final
 
 
 # ---------------------------------------------------------------- inputs
@@ -227,7 +257,8 @@ def make_hmmscan(domain_hits: Dict[str, List[Dict[str, Any]]]) -> Callable:
         for name in present:
             hsps = [FakeHSP(query_id=name, hit_id=hit["profile"], bitscore=float(hit["bitscore"]),
                             evalue=float(hit.get("evalue", 1e-20)), query_start=int(hit["start"]),
-                            query_end=int(hit["end"]), hit_start=1, hit_end=int(hit["end"]) - int(hit["start"]))
+                            query_end=int(hit["end"]), hit_start=1, hit_end=int(hit["end"]) - int(hit["start"]),
+                            hit_description=f"simulated {hit['profile']}")
                     for hit in table if hit["cds"] == name]
             if hsps:
                 results.append(FakeQueryResult(name, name, hsps))
